@@ -2,6 +2,7 @@ package props
 
 import (
 	"encoding/binary"
+	"fmt"
 	"math/big"
 
 	"github.com/DOSNetwork/core/share"
@@ -538,9 +539,18 @@ func tblsVerifyCase(rng *hx.Rng, w *hx.Writer, s *tblsSetup, e sigEnt, msg []byt
 			r = append(r, cls())
 			return hx.L(r...)
 		})
+		// what the changed message demands (a member whose key share is 0 signs every message alike)
+		m2 := append([]byte{}, msg...)
+		m2[len(m2)/2] ^= 0x40
+		v2 := refEval(coeffs, e.idx, BnQ)
+		v2.Mul(v2, keccakModQ(m2)).Mod(v2, BnQ)
+		mid := "z0"
+		if v2.Cmp(e.dlog) == 0 {
+			mid = "z1"
+		}
 		o2 := "ok"
-		if seq != hx.L("z1", "z0", "z1") {
-			o2 = hx.Fail("share-verify-wrong", "a share of message m: verify(m), change the caller's buffer in place to m', verify(m'), change it back, verify(m) gave "+seq+" instead of accept, reject, accept")
+		if seq != hx.L("z1", mid, "z1") {
+			o2 = hx.Fail("share-verify-wrong", "a share of message m: verify(m), change the caller's buffer in place to m', verify(m'), change it back, verify(m) gave "+seq+" instead of "+hx.L("z1", mid, "z1")+" ("+tag+", entry kind "+e.kind+", index "+fmt.Sprint(e.idx)+", message of "+fmt.Sprint(len(msg))+" bytes)")
 		}
 		w.Put(hx.Case{Entry: "-", Op: 0, Args: hx.L(hx.B(msg)), Impl: seq, Oracle: o2, Tags: []string{"verify-buffer-reused", "nt"}})
 	}
